@@ -296,9 +296,10 @@ Qed.
 Definition hashable_s (s : sval) : bool :=
   match s with SArr _ | SMap _ | SExt _ _ => false | _ => true end.
 
-(* what the library documents it cannot take into an interface{}: map keys that Go cannot hash
-   (arrays, maps, extensions), application use of the reserved extension type -1, and -- the
-   known finding F07-1n -- SignedInteger with an unsigned value above MaxInt64 *)
+(* what the library cannot take into an interface{}: map keys that Go cannot hash (arrays, maps,
+   extensions), application use of the reserved extension type -1, and -- with SignedInteger --
+   an integer above MaxInt64, which int64 cannot hold: the library rejects it with an overflow
+   error (c10_in_signed_overflow; before fix 3c4765d it came back sign-flipped, F07-1n) *)
 Fixpoint lib_supports (D : dopts) (s : sval) : Prop :=
   match s with
   | SInt z => ~ (d_signedinteger D = true /\ (2 ^ 63 <= z)%Z)
@@ -458,7 +459,12 @@ Section In.
                 (k = 8%nat \/ (z < 2 ^ 63)%Z) ->
                 exists it, decF D cap (S f) d ((c :: sbe k (Z.to_N z)) ++ rest) = Ok (it, rest) /\
                            (it = IInt z \/ ((0 <= z)%Z /\ it = IUint (Z.to_N z)))).
-    { intros k c Hc Hz Hlt Hk. rewrite sbe_be. rewrite <- app_comm_cons. rewrite (dec_uint_k D cap k c) by assumption.
+    { intros k c Hc Hz Hlt Hk. rewrite sbe_be. rewrite <- app_comm_cons.
+      assert (Hfit : uint_fits D (Z.to_N z)).
+      { intros Es. destruct (Z.ltb_spec z (2 ^ 63)) as [Hlt63|Hge63].
+        - change (2 ^ 63)%Z with 9223372036854775808%Z in Hlt63. change (2 ^ 63) with 9223372036854775808. lia.
+        - exfalso. apply Hg. split; assumption. }
+      rewrite (dec_uint_k D cap k c) by assumption.
       eexists. split; [reflexivity|]. unfold mkuint. destruct (d_signedinteger D) eqn:Es; [|right; split; [assumption|reflexivity]].
       left. f_equal. assert (Hz63 : (z < 2 ^ 63)%Z).
       { destruct (Z.ltb_spec z (2 ^ 63)) as [Hlt63|Hge63]; [assumption|]. exfalso. apply Hg. split; [reflexivity|assumption]. }
@@ -734,15 +740,27 @@ Proof.
   - lia.
 Qed.
 
-(* the guard on SignedInteger is needed: the known finding F07-1n *)
-Lemma c10_in_signed_refuted :
-  exists D s w, ser s w /\ (Z.of_nat (sdepth s) < maxdepth D)%Z /\
-    forall it, dec_naked D (dec_fuel w) w = Ok (it, []) -> ~ agrees D it s.
+(* the guard on SignedInteger in lib_supports is exactly the overflow case, and there the library
+   answers with the overflow error: an integer >= 2^63 has one serialisation (uint 64) and
+   SignedInteger cannot hold it in an int64 *)
+Lemma c10_in_signed_overflow : forall D z w rest,
+  ser (SInt z) w -> d_signedinteger D = true -> (2 ^ 63 <= z)%Z ->
+  dec_naked D (dec_fuel (w ++ rest)) (w ++ rest) = Err EOverflow.
 Proof.
-  exists (mkdopts false false true 0), (SInt 18446744073709551615), [0xcf; 255; 255; 255; 255; 255; 255; 255; 255].
-  split.
-  - cbn [ser]. unfold ser_int. do 5 right. left. split; [split; [lia|reflexivity]|reflexivity].
-  - split; [vm_compute; reflexivity|].
-    intros it H. vm_compute in H. apply Ok_inj in H. apply pair_inj in H. destruct H as [<- _].
-    cbn [agrees]. intros [A|[_ A]]; discriminate.
+  intros D z w rest Hser HS Hz. cbn [ser] in Hser. unfold ser_int in Hser.
+  change (2 ^ 63)%Z with 9223372036854775808%Z in Hz.
+  assert (Hw : (z < 2 ^ 64)%Z /\ w = 0xcf :: sbe 8 (Z.to_N z)).
+  { change (2 ^ 8)%Z with 256%Z in Hser. change (2 ^ 16)%Z with 65536%Z in Hser.
+    change (2 ^ 32)%Z with 4294967296%Z in Hser. change (2 ^ 7)%Z with 128%Z in Hser.
+    change (2 ^ 15)%Z with 32768%Z in Hser. change (2 ^ 31)%Z with 2147483648%Z in Hser.
+    change (2 ^ 63)%Z with 9223372036854775808%Z in Hser.
+    destruct Hser as [[H _]|[[H _]|[[H _]|[[H _]|[[H _]|[[H E]|[[H _]|[[H _]|[[H _]|[H _]]]]]]]]]]; try lia.
+    split; [lia|exact E]. }
+  destruct Hw as [Hhi ->]. change (2 ^ 64)%Z with 18446744073709551616%Z in Hhi.
+  rewrite sbe_be. unfold dec_naked, dec_fuel. rewrite <- app_comm_cons.
+  set (b := 0xcf :: be_put 8 (Z.to_N z) ++ rest).
+  replace (2 * length b + 1)%nat with (S (2 * length b)) by lia.
+  change (decF D (len b) (S (2 * length b)) 0 b = Err EOverflow). unfold b at 3.
+  rewrite (dec_uint_k_r D _ 8 0xcf (Z.to_N z)) by (try reflexivity; change (256 ^ N.of_nat 8) with 18446744073709551616; lia).
+  rewrite mkuint_r_overflow by (try assumption; change (2 ^ 63) with 9223372036854775808; lia). reflexivity.
 Qed.
